@@ -10,15 +10,17 @@ theorem) the statements below are the property:
 
 * `C16_reproducible*`   an integer seed makes the whole result — entries, reads, calls, the seed object
   and the state the global generator is left in — a function of the seed alone, for *any* world
-  (any state of the global generators, any history of calls);
+  (any state of the global generators, any history of calls); a `Generator` makes it a function of the
+  generator's state alone;
 * `C16_seed_sensitive`  two different integer seeds share no variate;
 * `C16_disjoint*`       different outputs / times / individuals / samples read disjoint variates
   (`Indep`), and every measurement entry does read noise (`C16_noise_nonempty`);
-* `C16_generator_advanced`  a `Generator` argument is read from its current counter on, without gaps,
+* `C16_generator_advanced*`  a `Generator` argument is read from its current counter on, without gaps,
   and comes back advanced by the number of calls.
 
-`intended` is the behaviour the property demands, `asIs` the code as it is (Appendix A #14); the
-`_partial` / `_counterexample` theorems are about `asIs`.
+`asIs d` is the code as it is (after the `fix:` commits 80b4fea, d48fa6e, b1514f4; `d` is whatever value
+`PriorPredictiveModel` draws from a `Generator` seed — all theorems hold for every `d`); `legacy` is the
+code before those commits and occurs in the `_counterexample` theorems only.
 -/
 set_option linter.unusedSectionVars false
 set_option linter.unusedSimpArgs false
@@ -26,58 +28,72 @@ namespace ChiModel.Seeds
 
 /-! ## reproducibility -/
 
-/-- Every sampling entry point (error, population, predictive, population-predictive, prior-,
-    posterior- and PAM-predictive models, the three `sample_initial_parameters`), for every structure
-    and all sizes: with an integer seed the complete result is a function of the seed, and the only
-    effect on the world is that the global generator may be left in a seed-determined state.
-    (Intended variant: `PAMPredictiveModel` chooses with its own generator.) -/
-theorem C16_reproducible (e : Entry) (s : Int) :
-    ∃ o ef, ∀ w, e.run intended (.int s) w = ((o, .int s), applyG ef w) := by
+/-- entry points whose `seed` may be a `Generator` and is handed on as such (the prior predictive model
+    draws an integer from it instead, `C16_generator_advanced_prior`; `sample_initial_parameters` takes integers) -/
+def Entry.acceptsGenerator : Entry → Bool
+  | .priorPredictive _ _ _ => false
+  | .initLogPosterior _ => false
+  | .initHierarchical _ _ _ _ => false
+  | _ => true
+
+
+/-- The code as it is: every sampling entry point (error, population, predictive, population-predictive,
+    prior-, posterior- and PAM-predictive models, the three `sample_initial_parameters`), for every
+    structure and all sizes: with an integer seed the complete result is a function of the seed, and the
+    only effect on the world is that the global generator may be left in a seed-determined state. -/
+theorem C16_reproducible (d : Int) (e : Entry) (s : Int) :
+    ∃ o ef, ∀ w, e.run (asIs d) (.int s) w = ((o, .int s), applyG ef w) := by
   cases e with
   | error k nT nS => exact detS_int (detS_err k nT nS) s
   | population p n => exact detS_int (detS_pop p n) s
-  | predictive kinds nT nS => exact detS_int (detS_pred intended kinds nT nS) s
-  | popPredictive p kinds nT n => exact detS_int (detS_popPred intended p kinds nT n) s
-  | priorPredictive spec nT n => exact detS_int_priorPred intended spec nT n s
-  | posteriorPredictive spec nT n => exact detS_int (detS_postPred intended spec nT n) s
-  | pam models nT => exact detS_int (detS_pam_intended intended rfl models nT) s
+  | predictive kinds nT nS => exact detS_int (detS_pred (asIs d) kinds nT nS) s
+  | popPredictive p kinds nT n => exact detS_int (detS_popPred (asIs d) p kinds nT n) s
+  | priorPredictive spec nT n => exact detS_int_priorPred (asIs d) spec nT n s
+  | posteriorPredictive spec nT n => exact detS_int (detS_postPred (asIs d) spec nT n) s
+  | pam models nT => exact detS_int (detS_pam_intended (asIs d) rfl models nT) s
   | initLogPosterior n => exact detS_int_initLogPosterior n s
   | initHierarchical p nIds nEps n => exact detS_int_initHier p nIds nEps n s
 
 /-- the same, as the property words it: the same integer seed in any two worlds (global generator
     states, entropy supplies — i.e. whatever was called before) gives identical results -/
-theorem C16_reproducible_any_world (e : Entry) (s : Int) (w w' : World) :
-    (e.run intended (.int s) w).1 = (e.run intended (.int s) w').1 := by
-  obtain ⟨o, ef, h⟩ := C16_reproducible e s
+theorem C16_reproducible_any_world (d : Int) (e : Entry) (s : Int) (w w' : World) :
+    (e.run (asIs d) (.int s) w).1 = (e.run (asIs d) (.int s) w').1 := by
+  obtain ⟨o, ef, h⟩ := C16_reproducible d e s
   rw [h w, h w']
 
-/-- the code as it is: every entry point except `PAMPredictiveModel.sample` -/
-theorem C16_reproducible_partial (e : Entry) (he : ∀ models nT, e ≠ .pam models nT) (s : Int) :
-    ∃ o ef, ∀ w, e.run asIs (.int s) w = ((o, .int s), applyG ef w) := by
+/-- … and with a `Generator` the result is a function of the generator's state (stream and counter)
+    alone: the global generators and the history do not enter (entry points that take a `Generator`;
+    for the prior predictive model see `C16_generator_advanced_prior`) -/
+theorem C16_reproducible_generator (d : Int) (e : Entry) (he : e.acceptsGenerator = true) (g : Gen) (w w' : World) :
+    (e.run (asIs d) (.gen g) w).1 = (e.run (asIs d) (.gen g) w').1 := by
+  have key : ∀ {P : Sampler}, DetS P → (P (.gen g) w).1 = (P (.gen g) w').1 := by
+    intro P h
+    obtain ⟨o, sd', ef, _, h1⟩ := h (.gen g) (by simp)
+    rw [h1 w, h1 w']
   cases e with
-  | error k nT nS => exact detS_int (detS_err k nT nS) s
-  | population p n => exact detS_int (detS_pop p n) s
-  | predictive kinds nT nS => exact detS_int (detS_pred asIs kinds nT nS) s
-  | popPredictive p kinds nT n => exact detS_int (detS_popPred asIs p kinds nT n) s
-  | priorPredictive spec nT n => exact detS_int_priorPred asIs spec nT n s
-  | posteriorPredictive spec nT n => exact detS_int (detS_postPred asIs spec nT n) s
-  | pam models nT => exact absurd rfl (he models nT)
-  | initLogPosterior n => exact detS_int_initLogPosterior n s
-  | initHierarchical p nIds nEps n => exact detS_int_initHier p nIds nEps n s
+  | error k nT nS => exact key (detS_err k nT nS)
+  | population p n => exact key (detS_pop p n)
+  | predictive kinds nT nS => exact key (detS_pred (asIs d) kinds nT nS)
+  | popPredictive p kinds nT n => exact key (detS_popPred (asIs d) p kinds nT n)
+  | priorPredictive spec nT n => simp [Entry.acceptsGenerator] at he
+  | posteriorPredictive spec nT n => exact key (detS_postPred (asIs d) spec nT n)
+  | pam models nT => exact key (detS_pam_intended (asIs d) rfl models nT)
+  | initLogPosterior n => simp [Entry.acceptsGenerator] at he
+  | initHierarchical p nIds nEps n => simp [Entry.acceptsGenerator] at he
 
-/-- `PAMPredictiveModel.sample` as it is: with the same integer seed the reads that decide how many
-    samples come from which model are reads of the *global* generator — two worlds that differ in
-    the global generator's state give different results -/
+/-- Before d48fa6e: with the same integer seed the reads that decide how many samples
+    `PAMPredictiveModel.sample` takes from which model were reads of the *global* generator — two worlds
+    that differ in the global generator's state gave different results -/
 theorem C16_pam_global_counterexample :
     ∃ w w' : World,
-      (pamSample asIs [(.indiv [.gauss], 1), (.indiv [.gauss], 1)] 1 (.int 4) w).1.1.alloc
-        ≠ (pamSample asIs [(.indiv [.gauss], 1), (.indiv [.gauss], 1)] 1 (.int 4) w').1.1.alloc :=
+      (pamSample legacy [(.indiv [.gauss], 1), (.indiv [.gauss], 1)] 1 (.int 4) w).1.1.alloc
+        ≠ (pamSample legacy [(.indiv [.gauss], 1), (.indiv [.gauss], 1)] 1 (.int 4) w').1.1.alloc :=
   ⟨⟨⟨.legacySeeded 1, 0⟩, 0⟩, ⟨⟨.legacySeeded 2, 0⟩, 0⟩, by decide⟩
 
 /-! ## different seeds -/
 
 /-- Different integer seeds give different draws: no variate read under seed `s` is read under seed
-    `s' ≠ s`, whatever the worlds (code as it is and intended). -/
+    `s' ≠ s`, whatever the worlds. -/
 theorem C16_seed_sensitive (v : Variant) (e : Entry) (he : e.singleRoot = true) (s s' : Int) (hne : s ≠ s')
     (w w' : World) :
     ∀ c ∈ (e.run v (.int s) w).1.1.cells, ∀ r ∈ cellReads c,
@@ -94,74 +110,68 @@ def Entry.isPrior : Entry → Bool
   | .priorPredictive _ _ _ => true
   | _ => false
 
-/-- Intended variant, every entry point other than the prior predictive model (see
-    `C16_disjoint_prior_partial`), every structure, all sizes, every kind of seed (integer,
-    `Generator` at any counter, none): the entries of the result are computed from pairwise disjoint
-    noise variates, no noise variate is used for a parameter, and different samples / individuals
-    have disjoint parameter variates. -/
-theorem C16_disjoint (e : Entry) (he : e.isPrior = false) (sd : SeedArg) (w : World) :
-    Indep (e.run intended sd w).1.1.cells := by
+/-- The code as it is, every entry point other than the prior predictive model (see
+    `C16_disjoint_prior`), every structure, all sizes (also repeated time points: entries are indexed
+    by the position in the requested time vector), every kind of seed (integer, `Generator` at any
+    counter, none): the entries of the result are computed from pairwise disjoint noise variates, no
+    noise variate is used for a parameter, and different samples / individuals have disjoint parameter
+    variates. -/
+theorem C16_disjoint (d : Int) (e : Entry) (he : e.isPrior = false) (sd : SeedArg) (w : World) :
+    Indep (e.run (asIs d) sd w).1.1.cells := by
   cases e with
   | error k nT nS => exact indep_err k nT nS sd w
   | population p n => exact indep_pop p n sd w
-  | predictive kinds nT nS => exact indep_pred intended kinds nT nS sd w (fun h => by simp [intended] at h)
-  | popPredictive p kinds nT n => exact indep_popPred intended p kinds nT n sd w
+  | predictive kinds nT nS => exact indep_pred (asIs d) kinds nT nS sd w (fun h => by simp [asIs] at h)
+  | popPredictive p kinds nT n => exact indep_popPred (asIs d) p kinds nT n sd w
   | priorPredictive spec nT n => simp [Entry.isPrior] at he
-  | posteriorPredictive spec nT n => exact indep_postPred intended spec nT n sd w
-  | pam models nT => exact indep_pam intended models nT sd w
+  | posteriorPredictive spec nT n => exact indep_postPred (asIs d) spec nT n sd w
+  | pam models nT => exact indep_pam (asIs d) models nT sd w
   | initLogPosterior n => exact indep_initLogPosterior n sd w
   | initHierarchical p nIds nEps n => exact indep_initHier p nIds nEps n sd w
 
-/-- … and the reads that decide the PAM allocation are used by no entry (intended variant) -/
-theorem C16_pam_alloc_disjoint (models : List (PredSpec × Nat)) (nT : Nat) (sd : SeedArg) (w : World) :
-    ∀ r ∈ (pamSample intended models nT sd w).1.1.alloc,
-      ∀ c ∈ (pamSample intended models nT sd w).1.1.cells, r ∉ cellReads c :=
-  pam_alloc_disjoint intended rfl models nT sd w
+/-- … and the reads that decide the PAM allocation are used by no entry -/
+theorem C16_pam_alloc_disjoint (d : Int) (models : List (PredSpec × Nat)) (nT : Nat) (sd : SeedArg) (w : World) :
+    ∀ r ∈ (pamSample (asIs d) models nT sd w).1.1.alloc,
+      ∀ c ∈ (pamSample (asIs d) models nT sd w).1.1.cells, r ∉ cellReads c :=
+  pam_alloc_disjoint (asIs d) rfl models nT sd w
 
-/-- The code as it is: the same holds whenever the seed is a `Generator` or `None`, and for integer
-    seeds at every entry point other than `PredictiveModel.sample` (which hands the integer to every
-    error model, `C16_independent_outputs_counterexample`). -/
-theorem C16_disjoint_partial (e : Entry) (he : e.isPrior = false) (sd : SeedArg) (w : World)
-    (h : ∀ kinds nT nS, e = .predictive kinds nT nS → ∀ s, sd ≠ .int s) :
-    Indep (e.run asIs sd w).1.1.cells := by
-  cases e with
-  | error k nT nS => exact indep_err k nT nS sd w
-  | population p n => exact indep_pop p n sd w
-  | predictive kinds nT nS => exact indep_pred asIs kinds nT nS sd w (fun _ => h kinds nT nS rfl)
-  | popPredictive p kinds nT n => exact indep_popPred asIs p kinds nT n sd w
-  | priorPredictive spec nT n => simp [Entry.isPrior] at he
-  | posteriorPredictive spec nT n => exact indep_postPred asIs spec nT n sd w
-  | pam models nT => exact indep_pam asIs models nT sd w
-  | initLogPosterior n => exact indep_initLogPosterior n sd w
-  | initHierarchical p nIds nEps n => exact indep_initHier p nIds nEps n sd w
-
-/-- `PredictiveModel.sample(seed=7)` as it is, two outputs with Gaussian error models, two times, two
-    samples: the entry of output 0 and the entry of output 1 at the same time and sample are computed
-    from the *same* variate (every error model builds `default_rng(7)` afresh). -/
+/-- Before 80b4fea: `PredictiveModel.sample(seed=7)`, two outputs with Gaussian error models, two times,
+    two samples: the entry of output 0 and the entry of output 1 at the same time and sample were computed
+    from the *same* variate (every error model built `default_rng(7)` afresh). -/
 theorem C16_independent_outputs_counterexample (w : World) :
     ∀ t s, t < 2 → s < 2 →
-      ∃ a ∈ (predSample asIs [.gauss, .gauss] 2 2 (.int 7) w).1.1.cells,
-      ∃ b ∈ (predSample asIs [.gauss, .gauss] 2 2 (.int 7) w).1.1.cells,
+      ∃ a ∈ (predSample legacy [.gauss, .gauss] 2 2 (.int 7) w).1.1.cells,
+      ∃ b ∈ (predSample legacy [.gauss, .gauss] 2 2 (.int 7) w).1.1.cells,
         a.out = 0 ∧ b.out = 1 ∧ a.time = t ∧ b.time = t ∧ a.unit = s ∧ b.unit = s ∧
         a.noise = b.noise ∧ a.noise = [⟨.seeded 7, 0, t * 2 + s⟩] := by
   intro t s ht hs
   have ht' : t = 0 ∨ t = 1 := by omega
   have hs' : s = 0 ∨ s = 1 := by omega
   rcases ht' with rfl | rfl <;> rcases hs' with rfl | rfl <;>
-    simp [predSample, asIs, loopS, seqS, skipS, mapCells, errSample, withRng, defaultRng, errBody, drawS,
+    simp [predSample, legacy, loopS, seqS, skipS, mapCells, errSample, withRng, defaultRng, errBody, drawS,
       gridCells, EM.nCalls, Out.append, Out.empty, finalSeed, List.range, List.range.loop]
 
-/-- The prior predictive model (individual-level predictive model, intended `PredictiveModel`,
-    integer seed): sample `k` takes its parameters from row `k` of the prior's draws on the global
-    generator seeded with `s`, its noise from the stream of seed `s + k + 1`; the entries are
-    independent.  (Partial: population-level inner models, whose truncated-Gaussian sub-models re-seed
-    the global generator between two prior draws, and the unseeded call are not covered here; the code
-    as it is inherits `C16_independent_outputs_counterexample`.) -/
-theorem C16_disjoint_prior_partial (v : Variant) (hv : v.sharedSeed = false) (kinds : List EM) (nT n : Nat)
-    (s : Int) (w : World) :
-    Indep (priorPredSample v (.indiv kinds) nT n (.int s) w).1.1.cells :=
-  (priorLoop_inv v hv kinds nT n s (List.range n) List.nodup_range 0
-    { w with glob := ⟨.legacySeeded s, 0⟩ } rfl).indep
+/-- The prior predictive model as it is, over an individual-level or a population-level predictive
+    model, with an integer seed `s`: sample `k` takes its parameters from row `k` of the prior's draws on
+    the global generator seeded with `s`, everything else from the stream family of seed `s + k + 1`; the
+    entries are independent.  With a `Generator` the entries are those of the integer it draws
+    (`C16_generator_advanced_prior`), so the same holds.
+    (Partial: population models with truncated-Gaussian sub-models — which re-seed the global generator
+    between two prior draws — and the unseeded call are not covered.) -/
+theorem C16_disjoint_prior_partial (d : Int) (spec : PredSpec) (hs : spec.noTrunc = true) (nT n : Nat)
+    (sd : SeedArg) (hsd : sd ≠ .none) (w : World) :
+    Indep (priorPredSample (asIs d) spec nT n sd w).1.1.cells := by
+  have key : ∀ s : Int, Indep (priorPredSample (asIs d) spec nT n (.int s) w).1.1.cells := fun s =>
+    (priorLoop_inv (asIs d) spec nT n (innerOK_anyPred (asIs d) rfl spec hs nT n) s (List.range n)
+      List.nodup_range 0 { w with glob := ⟨.legacySeeded s, 0⟩ } rfl).indep
+  cases sd with
+  | none => exact absurd rfl hsd
+  | int s => exact key s
+  | gen g =>
+    have : (priorPredSample (asIs d) spec nT n (.gen g) w).1.1.cells
+        = (priorPredSample (asIs d) spec nT n (.int d) w).1.1.cells := by
+      simp [priorPredSample, asIs]
+    rw [this]; exact key d
 
 /-- non-vacuity of the disjointness statements: every entry of a predictive sample does read noise
     (one variate, two for the constant-and-multiplicative model), for every seed and variant -/
@@ -171,54 +181,49 @@ theorem C16_noise_nonempty (v : Variant) (kinds : List EM) (nT nS : Nat) (sd : S
 
 /-! ## generator objects -/
 
-def Entry.acceptsGenerator : Entry → Bool
-  | .priorPredictive _ _ _ => false
-  | .initLogPosterior _ => false
-  | .initHierarchical _ _ _ _ => false
-  | _ => true
-
 /-- A `Generator` passed as seed (stream `g.stream`, `g.ctr` calls made so far) is used from its
     current counter on — the calls made on its stream are exactly `g.ctr, g.ctr+1, …` without gaps or
     repetitions, in program order — and the caller's object comes back advanced by their number.
-    For every structure and all sizes, code as it is and intended.  (The global generator is not a
-    `Generator` object: `w.glob.stream ≠ g.stream`.) -/
-theorem C16_generator_advanced (v : Variant) (e : Entry) (he : e.acceptsGenerator = true) (g : Gen) (w : World)
-    (hglob : w.glob.stream ≠ g.stream) :
-    ∃ g', (e.run v (.gen g) w).1.2 = .gen g' ∧ g'.stream = g.stream ∧ g.ctr ≤ g'.ctr ∧
-      callIdxOn g.stream (e.run v (.gen g) w).1.1.calls = List.range' g.ctr (g'.ctr - g.ctr) := by
+    The code as it is, every structure and all sizes. -/
+theorem C16_generator_advanced (d : Int) (e : Entry) (he : e.acceptsGenerator = true) (g : Gen) (w : World) :
+    ∃ g', (e.run (asIs d) (.gen g) w).1.2 = .gen g' ∧ g'.stream = g.stream ∧ g.ctr ≤ g'.ctr ∧
+      callIdxOn g.stream (e.run (asIs d) (.gen g) w).1.1.calls = List.range' g.ctr (g'.ctr - g.ctr) := by
   cases e with
   | error k nT nS => exact adv_err _ k nT nS g w rfl
   | population p n => exact adv_pop _ p n g w rfl
-  | predictive kinds nT nS => exact adv_pred _ v kinds nT nS g w rfl
-  | popPredictive p kinds nT n => exact adv_popPred _ v p kinds nT n g w rfl
+  | predictive kinds nT nS => exact adv_pred _ (asIs d) kinds nT nS g w rfl
+  | popPredictive p kinds nT n => exact adv_popPred _ (asIs d) p kinds nT n g w rfl
   | priorPredictive spec nT n => simp [Entry.acceptsGenerator] at he
-  | posteriorPredictive spec nT n => exact adv_postPred _ v spec nT n g w rfl
-  | pam models nT => exact adv_pam _ v models nT g w rfl (fun _ => hglob)
+  | posteriorPredictive spec nT n => exact adv_postPred _ (asIs d) spec nT n g w rfl
+  | pam models nT => exact adv_pam _ (asIs d) models nT g w rfl (fun h => by simp [asIs] at h)
   | initLogPosterior n => simp [Entry.acceptsGenerator] at he
   | initHierarchical p nIds nEps n => simp [Entry.acceptsGenerator] at he
 
-/-- `PriorPredictiveModel.sample` documents `seed: int or numpy.random.Generator`, but as it is a
-    `Generator` ends in `np.random.seed(Generator)`: a `TypeError`, no draw, the object untouched. -/
-theorem C16_generator_rejected_counterexample (v : Variant) (hv : v.priorGen = none) (spec : PredSpec)
-    (nT n : Nat) (g : Gen) (w : World) :
-    (priorPredSample v spec nT n (.gen g) w).1.1.err = true ∧
-    (priorPredSample v spec nT n (.gen g) w).1.1.calls = [] ∧
-    (priorPredSample v spec nT n (.gen g) w).1.2 = .gen g := by
-  simp [priorPredSample, hv]
+/-- `PriorPredictiveModel.sample` as it is (b1514f4: `seed = int(seed.integers(0, 1e6))`, the idiom of
+    `TruncatedGaussianModel.sample`): whatever value `d` that draw returns, the `Generator` is used
+    exactly once, at its current counter, and comes back advanced by one call; the entries, the further
+    calls and the effect on the world are those of the integer seed `d` (so everything proved for integer
+    seeds applies), and nothing else is drawn from the caller's object. -/
+theorem C16_generator_advanced_prior (d : Int) (spec : PredSpec) (nT n : Nat) (g : Gen) (w : World) :
+    (priorPredSample (asIs d) spec nT n (.gen g) w).1.1.err = false ∧
+    (priorPredSample (asIs d) spec nT n (.gen g) w).1.2 = .gen ⟨g.stream, g.ctr + 1⟩ ∧
+    (priorPredSample (asIs d) spec nT n (.gen g) w).1.1.cells = (priorPredSample (asIs d) spec nT n (.int d) w).1.1.cells ∧
+    (priorPredSample (asIs d) spec nT n (.gen g) w).1.1.calls
+      = ⟨g.stream, g.ctr, .seedInt, 1⟩ :: (priorPredSample (asIs d) spec nT n (.int d) w).1.1.calls ∧
+    (priorPredSample (asIs d) spec nT n (.gen g) w).2 = (priorPredSample (asIs d) spec nT n (.int d) w).2 := by
+  have herr : ∀ ks w', (priorLoop (asIs d) spec nT n (some d) ks w').1.err = false := by
+    intro ks
+    induction ks with
+    | nil => intro w'; rfl
+    | cons k ks ih => intro w'; simp [priorLoop, Out.append, ih]
+  refine ⟨?_, ?_, ?_, ?_, ?_⟩ <;> simp [priorPredSample, asIs, herr] <;> exact herr _ _
 
-/-- The repaired behaviour (`seed = int(seed.integers(0, 1e6))`, the idiom of
-    `TruncatedGaussianModel.sample`): whatever value `s'` that draw returns, the `Generator` is used
-    exactly once, at its current counter, and comes back advanced by one call; the entries are those
-    of the integer seed `s'` (so everything proved for integer seeds applies), and nothing else is
-    drawn from the caller's object. -/
-theorem C16_prior_generator_repaired (v : Variant) (s' : Int) (hv : v.priorGen = some s') (spec : PredSpec)
-    (nT n : Nat) (g : Gen) (w : World) :
-    (priorPredSample v spec nT n (.gen g) w).1.1.err = (priorPredSample v spec nT n (.int s') w).1.1.err ∧
-    (priorPredSample v spec nT n (.gen g) w).1.2 = .gen ⟨g.stream, g.ctr + 1⟩ ∧
-    (priorPredSample v spec nT n (.gen g) w).1.1.cells = (priorPredSample v spec nT n (.int s') w).1.1.cells ∧
-    (priorPredSample v spec nT n (.gen g) w).1.1.calls
-      = ⟨g.stream, g.ctr, .seedInt, 1⟩ :: (priorPredSample v spec nT n (.int s') w).1.1.calls ∧
-    (priorPredSample v spec nT n (.gen g) w).2 = (priorPredSample v spec nT n (.int s') w).2 := by
-  simp [priorPredSample, hv]
+/-- Before b1514f4: the documented `Generator` ended in `np.random.seed(Generator)`: a `TypeError`, no
+    draw, the object untouched. -/
+theorem C16_generator_rejected_counterexample (spec : PredSpec) (nT n : Nat) (g : Gen) (w : World) :
+    (priorPredSample legacy spec nT n (.gen g) w).1.1.err = true ∧
+    (priorPredSample legacy spec nT n (.gen g) w).1.1.calls = [] ∧
+    (priorPredSample legacy spec nT n (.gen g) w).1.2 = .gen g := by
+  simp [priorPredSample, legacy]
 
 end ChiModel.Seeds
